@@ -401,7 +401,19 @@ def run_property(prop, tier="quick", seed=0, only=None, jobs=None):
         # one fresh fork of the parent per unit: the solver context a unit sees (term ids, symbol counters) does not
         # depend on which units ran before it in the same worker -- z3's heuristics are sensitive to that
         with ctxm.Pool(min(jobs, len(tasks)), maxtasksperchild=1) as pool:
-            results = pool.map(_run_unit, tasks, chunksize=1)
+            # a worker that dies (killed, out of memory) would make a plain map() wait forever: bounded wait, and the
+            # units that did not report are checker faults (exit 3), never verdicts
+            pending = [(t, pool.apply_async(_run_unit, (t,))) for t in tasks]
+            deadline = time.time() + float(os.environ.get("PVC_RUN_TIMEOUT_S", "5400"))
+            results = []
+            for t, ar in pending:
+                try:
+                    results.append(ar.get(timeout=max(1.0, deadline - time.time())))
+                except mp.TimeoutError:
+                    results.append({"unit": "%s#%d" % (t[0], t[1]), "obs": [], "bounded": [], "functions": {}, "inlined": [],
+                                    "assumptions": [], "notes": [], "downgrades": [], "seconds": 0.0, "engine": "",
+                                    "error": "unit did not report within the run budget (worker died or hung)"})
+            pool.terminate()
     return results
 
 
